@@ -5,6 +5,7 @@ pub mod c05;
 pub mod c06;
 pub mod c12;
 pub mod c16;
+pub mod c17;
 pub mod cpu;
 
 pub fn all() -> Vec<Box<dyn Property>> {
@@ -16,5 +17,6 @@ pub fn all() -> Vec<Box<dyn Property>> {
         Box::new(c06::C06),
         Box::new(c12::C12),
         Box::new(c16::C16),
+        Box::new(c17::C17),
     ]
 }
